@@ -158,7 +158,7 @@ def gen_seqs(rng, n):
         invs = []
         for _ in range(rng.randint(1, 8)):
             t += rng.choice([0, 1, 60, H, 24 * H, 71 * H, 72 * H - 1, 72 * H, 72 * H + 1, 100 * H, -5])
-            f = rng.choice(vers[:-1] + ["!"])
+            f = rng.choice(vers[:-1] + ["!", "v1.1.0\n", " 2.0.0", "1.0.1\r\n"])   # a tag may arrive with white space around it
             r = rng.random()
             mode = 1 if r < 0.12 else (2 if r < 0.24 else (3 if r < 0.30 else 0))   # 1 disabled by environment, 2/3 cache cannot be written
             invs.append("%d %d %s %s" % (t, mode, hx(cur), "!" if f == "!" else hx(f)))
